@@ -8,8 +8,14 @@ Decided:
   INDEX-MONOTONE  next_answer advances the answer index exactly once per call; peek_answer only skips invalid answers
   FLAG-SOURCE     the `more answers follow` flag given to the callback is `!peek_answer().is_no_more_solutions()` evaluated after
                   the answer was taken
+  STRAND-CONSERVED  completeness needs every derivation to stay alive until it fails or answers: a strand handed by value to one of the
+                  SolveState steps leaves that step, on every normal path, through a *conserving sink* (put back into a table, parked as
+                  the active strand, passed on to the next step, turned into an answer) - the only audited discard is a failed merge
+  NEXT-ANSWER     merge_answer_into_strand re-enqueues a copy of the strand asking for the next answer index before it consumes this
+                  answer (positive literal, non-trivial answer)
 (The non-terminating `Floundered` loop in solve_multiple is reported under C09.)"""
-from core import enum_matches, select_arms, V, walk, calls, peel, callee_matches, var_name, expr_vars
+import re
+from core import enum_matches, select_arms, V, walk, calls, peel, callee_matches, var_name, expr_vars, trace_is_call
 from kit import need_body, has_call, short, result_expr, mentions_field, dominated_by_calls, user_block
 
 TABLE = "chalk_engine::table::Table"
@@ -155,6 +161,8 @@ def run(ck, facts, tier):
             ck.violation(R, "solve_multiple:flag=!peek.is_no_more_solutions()", sm.where(),
                          "the `more` flag must come from a look-ahead peek taken after the current answer")
 
+    strand_rules(ck, facts)
+
 
 def walk_pat(p):
     if isinstance(p, dict):
@@ -169,3 +177,100 @@ def walk_pat(p):
                         yield from walk_pat(x)
             elif isinstance(v, dict):
                 yield from walk_pat(v)
+
+
+STRAND_TY = re.compile(r"(chalk_engine::strand::Strand<|chalk_ir::Canonical<chalk_engine::strand::Strand<)")
+SS = "chalk_engine::logic::SolveState::"
+CONSERVING = ("Table::enqueue_strand", SS + "on_coinductive_subgoal", SS + "on_positive_cycle", SS + "pursue_answer",
+              SS + "on_subgoal_selected", SS + "on_no_remaining_subgoals")
+
+
+def strand_sinks(body):
+    """blocks that hand a strand on: a conserving call receiving a moved strand, or a write to StackEntry.active_strand"""
+    cfg = body.cfg
+    loc = body.mir["locals"]
+    out = set()
+    for i, blk in enumerate(cfg.blocks):
+        t = blk["t"]
+        if t["k"] == "call" and callee_matches(t, CONSERVING):
+            if any(isinstance(a, dict) and "m" in a and STRAND_TY.search(loc[a["m"]["l"]]) for a in t.get("a", [])):
+                out.add(i)
+    for i, j, st in cfg.field_writes("chalk_engine::stack::StackEntry.active_strand"):
+        out.add(i)
+    return out
+
+
+def strand_rules(ck, facts):
+    R = "C03.STRAND-CONSERVED"
+    ck.rule(R, "K3 must-pass-through: in on_coinductive_subgoal / on_positive_cycle / on_subgoal_selected / on_no_remaining_subgoals (strand "
+               "received by value) and in ensure_root_answer (strand taken from the table), every path to a normal return - and, in "
+               "ensure_root_answer, back to the loop head - passes a conserving sink: Table::enqueue_strand(strand), "
+               "StackEntry.active_strand = Some(strand), or the next step taking the strand by value (pursue_answer turns it into an "
+               "answer).  Audited discard: the Err edge of merge_answer_into_strand (the answer does not unify: the derivation failed)")
+    AUDITED = {"on_subgoal_selected": ("merge_answer_into_strand", ["Err"])}
+    for fn in ("on_coinductive_subgoal", "on_positive_cycle", "on_subgoal_selected", "on_no_remaining_subgoals"):
+        b = need_body(ck, facts, R, SS + fn)
+        if not b:
+            continue
+        cfg = b.cfg
+        if not STRAND_TY.search(b.mir["locals"][2]):
+            ck.violation(R, "missing-anchor:%s:by-value-strand" % fn, b.where(), "second parameter is no longer a strand taken by value")
+            continue
+        sinks = strand_sinks(b)
+        removed = []
+        if fn in AUDITED:
+            callee, vs = AUDITED[fn]
+            removed = cfg.variant_edges(lambda tr: trace_is_call(callee)(tr.get("of") or {}), vs)
+            ck.floor(R, "%s.audited-discard-edge(%s)" % (fn, callee), len(removed), 1)
+        ck.floor(R, "%s.sinks" % fn, len(sinks), 1)
+        reach = cfg.reachable(0, removed, False, stop=sinks)
+        esc = [r for r in cfg.return_blocks() if r in reach and r not in sinks]
+        if esc:
+            ck.violation(R, "%s:strand-discarded" % fn, b.where(),
+                         "a path from entry to the return (bb%s) hands the strand to no table, no active_strand slot and no later step: the "
+                         "derivation is dropped although it has not failed, so answers that depend on it are never produced" % esc[:2])
+        else:
+            ck.ok(R, "%s:strand-conserved" % fn, "%d sink block(s), %d audited discard edge(s)" % (len(sinks), len(removed)))
+    b = need_body(ck, facts, R, SS + "ensure_root_answer")
+    if b:
+        cfg = b.cfg
+        sel = cfg.call_blocks(SS + "select_subgoal")
+        head = cfg.call_blocks("Option::take")
+        sinks = strand_sinks(b)
+        ck.floor(R, "ensure_root_answer.select_subgoal/sinks/loop-head", min(len(sel), len(sinks), len(head)), 1)
+        if sel and sinks and head:
+            start = cfg.blocks[sel[0]]["t"].get("t")
+            reach = cfg.reachable(start, (), False, stop=sinks)
+            esc = [r for r in list(cfg.return_blocks()) + head if r in reach and r not in sinks]
+            if esc:
+                ck.violation(R, "ensure_root_answer:strand-discarded", b.where(), "after select_subgoal a path reaches %s without handing the strand on" % esc[:2])
+            else:
+                ck.ok(R, "ensure_root_answer:strand-conserved")
+
+    R = "C03.NEXT-ANSWER"
+    ck.rule(R, "K3: in merge_answer_into_strand, on the path where the selected literal is Positive and the answer is not the trivial "
+               "substitution, a strand whose answer_index was incremented is enqueued (Table::enqueue_strand) before the answer is merged; "
+               "the only ways around that enqueue are the Negative-literal edge, the is_trivial_substitution==true edge and the early "
+               "ambiguous-answer return")
+    b = need_body(ck, facts, R, SS + "merge_answer_into_strand")
+    if b:
+        cfg = b.cfg
+        enq = cfg.call_blocks("Table::enqueue_strand")
+        inc = cfg.call_blocks("AnswerIndex::increment")
+        merge = cfg.call_blocks(("apply_answer_subst", "AnswerSubstitutor::substitute", "resolvent::apply_answer_subst"))
+        triv = cfg.bool_edges(trace_is_call("is_trivial_substitution"), True)
+        ck.floor(R, "merge_answer_into_strand.enqueue/increment/merge/trivial-edge", min(len(enq), len(inc), len(merge), len(triv)), 1)
+        if enq and inc and merge and triv:
+            ok_inc = all(cfg.must_pass_blocks(e, inc) for e in enq)
+            # literal-kind edges: switch on Literal discriminant -> Negative
+            neg = cfg.variant_edges(lambda tr: str(tr.get("adt", "")).endswith("Literal"), ["Negative"])
+            removed = list(triv) + list(neg)
+            bypass = [m for m in merge if m in cfg.reachable(0, removed, False, stop=set(enq))]
+            if not ok_inc:
+                ck.violation(R, "merge_answer_into_strand:next-strand-has-next-index", b.where(), "the re-enqueued strand does not ask for the next answer index")
+            elif bypass:
+                ck.violation(R, "merge_answer_into_strand:next-strand-enqueued", b.where(),
+                             "a positive, non-trivial answer can be merged (bb%s) without first enqueueing the strand for the next answer: later "
+                             "answers of the subgoal are never combined with this strand" % bypass[:2])
+            else:
+                ck.ok(R, "merge_answer_into_strand:next-strand-enqueued", "enqueue dominated by answer_index.increment(); bypass only via Negative / trivial edges")
